@@ -10,8 +10,10 @@ const TYPES: [u32; 20] = [
     1, 0, 2, 3, 4, 5, 6, 7, 8, 9, 10, 11, 12, 0x5FFF_FFFF, 0x6000_0000, 0x6FFF_FFFF, 0x7000_0000, 0x7FFF_FFFF,
     0x8000_0000, 0xFFFF_FFFF,
 ];
-const STRTAB: &[u8] = b"\0.text\0.rodata\0.data\0.bss\0.shstrtab\0.symtab\0\0";
-const NAMEIDX: [u32; 5] = [1, 7, 15, 21, 26];
+// the table does not start with a NUL and one entry uses name index 0 (an index the ELF specification reserves for
+// "no name" when the table starts with NUL - which this one does not)
+const STRTAB: &[u8] = b"zero\0.text\0.rodata\0.data\0.bss\0.shstrtab\0.symtab\0\0";
+const NAMEIDX: [u32; 6] = [5, 0, 11, 19, 25, 2];
 
 fn class(raw: u32) -> Option<ElfSectionType> {
     Some(match raw {
